@@ -91,6 +91,7 @@ def gen(rng, tier):
 
 class C08(Prop):
     id = "C08"
+    track_states = True
     quick_runs = 2000
     thorough_runs = 40000
     assumptions = ["the bound is checked after every scheduler step on harness-visible state: bodies executing "
